@@ -264,7 +264,9 @@ impl<'a> Walker<'a> {
                 self.stats.refused_edges += 1;
             }
             let post = project(&run.w);
-            let dok = out.ok || interfere;
+            // (a JUDGED interference - the nominee trying a privileged operation - reports its real outcome)
+            let judged = interfere && e.call.get("judged").and_then(|x| x.as_bool()).unwrap_or(false);
+            let dok = out.ok || (interfere && !judged);
             let d = match run.digest_kind.as_str() {
                 "ownership:staking" => json!([dok, post["c"]["admin"], post["c"]["pending"], ju(&post["c"], "minTime").rem_euclid(100000)]),
                 "ownership:treasury" => json!([dok, post["t"]["admin"], post["t"]["pending"], ju(&post["t"], "minTime").rem_euclid(100000)]),
